@@ -111,6 +111,9 @@ LAWS: List[Tuple[str, str, str]] = [
     ("stable sort by two keys == two stable sorts",
      "def f(df):\n    return df.sort_values(['k', 'a'], kind='stable')['b'].cumsum()\n",
      "def f(df):\n    return df.sort_values('a', kind='stable').sort_values('k', kind='stable')['b'].cumsum()\n"),
+    ("generator fusion: a loop over a generator == the loop over what it iterates",
+     "def rows(df):\n    for _, x, y in df[['a', 'b']].itertuples():\n        yield x, y - x\ndef f(df):\n    out = []\n    for x, d in rows(df):\n        out.append(x + d)\n    return pd.Series(out, index=df.index)\n",
+     "def f(df):\n    out = []\n    for _, x, y in df[['a', 'b']].itertuples():\n        out.append(x + (y - x))\n    return pd.Series(out, index=df.index)\n"),
     ("partial application",
      "def g(x, y):\n    return x - y\ndef f(df):\n    return df['a'].apply(functools.partial(g, y=2))\n",
      "def f(df):\n    return df['a'] - 2\n"),
